@@ -119,6 +119,6 @@ Theorem C10_optim_paths_known :
   forallb (fun p => existsb (path_eqb p)
                       [("ACovAnisoList::evalCovMatrixOptim", [Pre; Ret]);
                        ("ACovAnisoList::evalCovMatrixSymmetricOptim", [Pre; Ret]);
-                       ("KrigingSystem::isReady[_cova]", [Pre; RetFail])]%string)
+                       ("KrigingSystem::isReady@_cova", [Pre; RetFail])]%string)
           (failed_paths optim_paths) = true.
 Proof. vm_compute. reflexivity. Qed.
